@@ -1,5 +1,6 @@
 /- Line-protocol driver: one JSON request per input line, one JSON reply per output line. -/
 import DriverLib.Gens
+import DriverLib.WorldDrv
 open Lean Drv
 
 def dispatch (j : Json) : R Json := do
@@ -7,6 +8,7 @@ def dispatch (j : Json) : R Json := do
   | "permute" => handlePermute j
   | "convert" => handleConvert j
   | "gen" => handleGen j
+  | "world" => handleWorld j
   | k => throw s!"unknown kind {k}"
 
 partial def loop (h : IO.FS.Stream) (out : IO.FS.Stream) : IO Unit := do
